@@ -618,9 +618,9 @@ def _build_end_to_end(ctx, rid, reg):
         return {"name": name, "type": typ, "data": data}
 
     spec = {"channels": [
-        {"name": "cz", "samples": [{"name": "s2", "data": [at("z_s2_0")], "modifiers": [mod("mu", "normfactor"), mod("st", "staterror", [at("ust_z0")])]}]},
+        {"name": "cz", "samples": [{"name": "s2", "data": [at("z_s2_0")], "modifiers": [mod("mu", "normfactor"), mod("st", "staterror", [at("ust_z0")]), mod("ns", "normsys", {"hi": at("HI3"), "lo": at("LO3")})]}]},  # s2 carries `ns` in a SECOND channel with other factors
         {"name": "ca", "samples": [
-            {"name": "s1", "data": [at("a_s1_0")], "modifiers": [mod("ns", "normsys", {"hi": at("HI"), "lo": at("LO")}), mod("mu", "normfactor")]},
+            {"name": "s1", "data": [at("a_s1_0")], "modifiers": [mod("ns", "normsys", {"hi": at("HI"), "lo": at("LO")}), mod("mu", "normfactor"), mod("hs", "histosys", {"hi_data": [at("ah0")], "lo_data": [at("al0")]})]},  # s1 carries `hs` in two channels
             {"name": "s2", "data": [at("a_s2_0")], "modifiers": [mod("ss", "shapesys", [at("uss_a0")])]}]},
         {"name": "cm", "samples": [
             {"name": "s1", "data": [at("m_s1_0"), at("m_s1_1")], "modifiers": [mod("hs", "histosys", {"hi_data": [at("h0"), at("h1")], "lo_data": [at("l0"), at("l1")]}), mod("lumi", "lumi")]},
